@@ -748,6 +748,19 @@ pub fn run_c06(opts: &Opts, out: &mut Emitter) {
             });
         }
     }
+    // a parameter of every declared type supplied with an argument of every kind
+    for (name, datum, val) in arg_kind_sweep() {
+        let mut t = empty_tx();
+        t.fees = fees_param();
+        t.outputs.push(tir::Output { address: tir::Expression::None, datum, amount: ada(2_000_000), optional: false });
+        let mut case = complete_case(&mut g, t);
+        case.args.insert("v".into(), val);
+        out.case("arg-kind-sweep", || {
+            let mut v = case_json(&case, observe(&case, false, None));
+            v["label"] = json!(name);
+            v
+        });
+    }
     // random templates
     for k in 0..opts.n {
         g.param_rate = 3 + (k as u64 % 6);
@@ -819,66 +832,19 @@ pub fn run_c07(opts: &Opts, out: &mut Emitter) {
     // arg-kind sweep: a parameter of every declared type met by an argument of every kind (the substitution does
     // not look at the declared type, so each pair must come out as the argument's own expression), in a datum,
     // behind a coercion and inside a list
-    {
-        use tx3_tir::model::core::{Type, Utxo, UtxoRef};
-        let mut set = std::collections::HashSet::new();
-        set.insert(Utxo {
-            r#ref: UtxoRef { txid: vec![8; 32], index: 2 },
-            address: ADDR_A.to_vec(),
-            assets: tx3_tir::model::assets::CanonicalAssets::from_naked_amount(7),
-            datum: Some(tir::Expression::Number(4)),
-            script: None,
+    for (name, datum, val) in arg_kind_sweep() {
+        let mut t = empty_tx();
+        t.fees = fees_param();
+        t.outputs.push(tir::Output { address: tir::Expression::None, datum, amount: ada(2_000_000), optional: false });
+        let mut case = complete_case(&mut g, t);
+        case.args.insert("v".into(), val);
+        let thorough = opts.thorough;
+        out.case("arg-kind-sweep", || {
+            let s = if thorough { None } else { Some(&mut sampler) };
+            let mut v = case_json(&case, observe(&case, true, s));
+            v["shape"] = json!(name);
+            v
         });
-        let tys: Vec<(&str, Type)> = vec![
-            ("undefined", Type::Undefined),
-            ("unit", Type::Unit),
-            ("int", Type::Int),
-            ("bool", Type::Bool),
-            ("bytes", Type::Bytes),
-            ("address", Type::Address),
-            ("utxo", Type::Utxo),
-            ("utxo-ref", Type::UtxoRef),
-            ("any-asset", Type::AnyAsset),
-            ("list", Type::List),
-            ("map", Type::Map),
-            ("custom", Type::Custom("Thing".into())),
-        ];
-        let vals: Vec<(&str, ArgValue)> = vec![
-            ("int", ArgValue::Int(-3)),
-            ("bool", ArgValue::Bool(false)),
-            ("text", ArgValue::String("hello".into())),
-            ("empty-text", ArgValue::String(String::new())),
-            ("bytes", ArgValue::Bytes(vec![0xca, 0xfe])),
-            ("address", ArgValue::Address(ADDR_A.to_vec())),
-            ("utxo-ref", ArgValue::UtxoRef(UtxoRef { txid: vec![6; 32], index: 3 })),
-            ("utxo-set", ArgValue::UtxoSet(set)),
-            ("empty-utxo-set", ArgValue::UtxoSet(Default::default())),
-        ];
-        for (tn, ty) in tys.iter() {
-            for (vn, val) in vals.iter() {
-                for place in 0..3u8 {
-                    let p = param("v", ty.clone());
-                    let datum = match place {
-                        0 => p,
-                        1 => tir::Expression::EvalCoerce(Box::new(tir::Coerce::IntoDatum(p))),
-                        _ => tir::Expression::List(vec![tir::Expression::Number(1), p]),
-                    };
-                    let mut t = empty_tx();
-                    t.fees = fees_param();
-                    t.outputs.push(tir::Output { address: tir::Expression::None, datum, amount: ada(2_000_000), optional: false });
-                    let mut case = complete_case(&mut g, t);
-                    case.args.insert("v".into(), val.clone());
-                    let thorough = opts.thorough;
-                    let name = format!("{tn}<-{vn}@{place}");
-                    out.case("arg-kind-sweep", || {
-                        let s = if thorough { None } else { Some(&mut sampler) };
-                        let mut v = case_json(&case, observe(&case, true, s));
-                        v["shape"] = json!(name);
-                        v
-                    });
-                }
-            }
-        }
     }
     // query-shape sweep: an input block and a collateral block whose query states every subset of {address,
     // min_amount, ref}, each part written as a literal or as a parameter, single and multi: whatever a stage or a
@@ -955,6 +921,60 @@ pub fn run_c07(opts: &Opts, out: &mut Emitter) {
             case_json(&case, observe(&case, true, s))
         });
     }
+}
+
+/// A parameter `v` of each declared type, an argument of each kind, three positions (datum, behind a coercion, inside
+/// a list): 12 x 9 x 3 datums with the argument to supply.
+pub fn arg_kind_sweep() -> Vec<(String, tir::Expression, ArgValue)> {
+    use tx3_tir::model::core::{Type, Utxo, UtxoRef};
+    let mut set = std::collections::HashSet::new();
+    set.insert(Utxo {
+        r#ref: UtxoRef { txid: vec![8; 32], index: 2 },
+        address: ADDR_A.to_vec(),
+        assets: tx3_tir::model::assets::CanonicalAssets::from_naked_amount(7),
+        datum: Some(tir::Expression::Number(4)),
+        script: None,
+    });
+    let tys: Vec<(&str, Type)> = vec![
+        ("undefined", Type::Undefined),
+        ("unit", Type::Unit),
+        ("int", Type::Int),
+        ("bool", Type::Bool),
+        ("bytes", Type::Bytes),
+        ("address", Type::Address),
+        ("utxo", Type::Utxo),
+        ("utxo-ref", Type::UtxoRef),
+        ("any-asset", Type::AnyAsset),
+        ("list", Type::List),
+        ("map", Type::Map),
+        ("custom", Type::Custom("Thing".into())),
+    ];
+    let vals: Vec<(&str, ArgValue)> = vec![
+        ("int", ArgValue::Int(-3)),
+        ("bool", ArgValue::Bool(false)),
+        ("text", ArgValue::String("hello".into())),
+        ("empty-text", ArgValue::String(String::new())),
+        ("bytes", ArgValue::Bytes(vec![0xca, 0xfe])),
+        ("address", ArgValue::Address(ADDR_A.to_vec())),
+        ("utxo-ref", ArgValue::UtxoRef(UtxoRef { txid: vec![6; 32], index: 3 })),
+        ("utxo-set", ArgValue::UtxoSet(set)),
+        ("empty-utxo-set", ArgValue::UtxoSet(Default::default())),
+    ];
+    let mut out = vec![];
+    for (tn, ty) in tys.iter() {
+        for (vn, val) in vals.iter() {
+            for place in 0..3u8 {
+                let p = param("v", ty.clone());
+                let datum = match place {
+                    0 => p,
+                    1 => tir::Expression::EvalCoerce(Box::new(tir::Coerce::IntoDatum(p))),
+                    _ => tir::Expression::List(vec![tir::Expression::Number(1), p]),
+                };
+                out.push((format!("{tn}<-{vn}@{place}"), datum, val.clone()));
+            }
+        }
+    }
+    out
 }
 
 /// Text- and bytes-valued expressions for the redex sweep of C07: concatenation over every pair of operand classes
